@@ -269,7 +269,7 @@ Scenario generate(const std::string& prop, uint64_t seed, const std::string& tie
         if (mode == 0) { const int d = int(r.below(3)); sHi[d] = 0.5; tLo[d] = 0.5; }               // disjoint regions
         if (mode == 1) { const int d = int(r.below(3)); sHi[d] = 0.6; tLo[d] = 0.4; }               // overlapping
         genCloud(r, mode == 3 ? 4 : kind, mode == 4 ? 1 : n, sc.height, sc.src, sLo, sHi);
-        if (mode == 2) { sc.tgt = sc.src; }                                                           // identical positions
+        if (mode == 2) { sc.tgt = sc.src; }                                                      // identical positions
         else if (mode >= 6) {
             // same leaves at the group boundaries, same counts, but different inner leaves: group summaries coincide
             sc.tgt = sc.src;
@@ -284,6 +284,7 @@ Scenario generate(const std::string& prop, uint64_t seed, const std::string& tie
             }
         }
         else genCloud(r, mode == 5 ? 4 : int(r.below(8)), mode == 5 && r.chance(0.5) ? 1 : nt, sc.height, sc.tgt, tLo, tHi);
+        if (r.chance(0.04)) { if (r.chance(0.5)) sc.src.clear(); else sc.tgt.clear(); }               // one side without any particle
     }
     toBox(sc, sc.src);
     toBox(sc, sc.tgt);
